@@ -127,6 +127,23 @@ def _guarded_division(t):
     return None
 
 
+def _spine_alternatives(t):
+    """Leaves of the returned value after peeling conversions, flips,
+    index-by-permutation and phi nodes (one leaf per path)."""
+    t = strip_conv(t)
+    if t[0] == "phi":
+        out = []
+        for x in t[1]:
+            out.extend(_spine_alternatives(x))
+        return out
+    x = is_flip(t)
+    if x is not None:
+        return _spine_alternatives(x)
+    if t[0] == "sub":
+        return _spine_alternatives(t[1])
+    return [t]
+
+
 def _f2q_summary(al, t, args, kwargs):
     avs = [al.ev(a) for a in args]
     al.events.add("fdr2qvalue", args=avs, terms=list(args))
@@ -143,6 +160,7 @@ def run(ctx):
     _check_tdc(ctx, tdc)
     _check_fdr2qvalue(ctx, f2q)
     _check_update_labels(ctx)
+    _check_direction_routing(ctx)
     _check_registry(ctx)
 
 
@@ -153,6 +171,7 @@ def _check_tdc(ctx, tdc):
     ctx.require(params[:3] == ["scores", "target", "desc"] or len(params) >= 3,
                 f"{TDC}: expected parameters (scores, target, desc)")
     p_scores, p_target, p_desc = params[0], params[1], params[2]
+    _check_integer_negation(ctx, tdc, p_scores)
     for desc in (True, False):
         case = f"desc={desc}"
         fnode = specialise(tdc.node, {p_desc: desc})
@@ -173,6 +192,35 @@ def _check_tdc(ctx, tdc):
                 len(calls) >= 1,
                 f"{TDC} [{case}]: the returned value does not come from "
                 f"{F2Q}; idiom not recognised ({show(rterm, 160)})")
+            # every alternative (path) of the returned value must be
+            # produced by _fdr2qvalue
+            for alt in _spine_alternatives(rterm):
+                if alt[0] == "call" and alt[1] == F2Q:
+                    ctx.ok("C01c-all-paths-through-fdr2qvalue", tdc,
+                           "returned q-values come from _fdr2qvalue",
+                           case=case)
+                    continue
+                c = np_call(alt)
+                capped = any(
+                    (np_call(x) or ("",))[0] in ("clip", "minimum")
+                    and x is not alt
+                    for x in walk_term(alt)
+                    if x[0] in ("call", "mcall"))
+                if c and c[0] in ("minimum.accumulate", "fmin.accumulate") \
+                        and not capped:
+                    ctx.fail(
+                        "C01c-all-paths-through-fdr2qvalue", tdc,
+                        "q-values on an alternative path are capped at 1 "
+                        "and tie-grouped",
+                        "on some path the q-values are computed as "
+                        f"{show(alt, 100)}: a bare running minimum of the "
+                        "FDR is not capped at 1 (and ignores tie groups)",
+                        node=rnode, case=case)
+                else:
+                    raise AnalysisError(
+                        f"{TDC} [{case}]: on some path the q-values are "
+                        f"computed by {show(alt, 120)}, not by {F2Q}; idiom "
+                        "not recognised")
             # ---- b: issues raised while interpreting
             issues = al.events.of("issue")
             ctx.check(not issues, "C01b-alignment", tdc,
@@ -277,6 +325,72 @@ def _check_tdc(ctx, tdc):
                 "score values take part in arithmetic/comparison "
                 f"{bad[:2]}, so a monotone rescaling could change the "
                 "result", node=rnode, case=case)
+
+
+FLOAT_TYPES = {"np.float32", "np.float64", "float", "np.float16",
+               "np.longdouble", "np.float_", "np.double"}
+INT_SUPERSETS = {"np.integer", "np.number"}
+
+
+def _check_integer_negation(ctx, tdc, p_scores):
+    """Negating an integer array can wrap (unsigned always, signed at the
+    dtype minimum): the array negated for the descending sort must have been
+    converted to a float dtype under a guard that covers every integer
+    dtype (or unconditionally)."""
+    prog = ctx.prog
+    du = DefUse(prog, tdc)
+    from ..cfg import CFG
+    cfg = CFG(tdc.node)
+    sites = []
+    for n in ast.walk(tdc.node):
+        if isinstance(n, ast.UnaryOp) and isinstance(n.op, ast.USub) and \
+                isinstance(n.operand, ast.Name):
+            roots = du.backward_roots(n.operand)
+            if ("param", p_scores) in roots:
+                sites.append(n)
+    if not sites:
+        ctx.ok("C01e-integer-negation", tdc,
+               "no negation of the score array (no integer wrap-around "
+               "possible)")
+        return
+    for n in sites:
+        defs = du.defs_of(n.operand)
+        convs = []
+        for d in defs:
+            v = d.value
+            if d.kind == "assign" and isinstance(v, ast.Call) and isinstance(
+                    v.func, ast.Attribute) and v.func.attr == "astype" and \
+                    v.args and ast.unparse(v.args[0]) in FLOAT_TYPES:
+                convs.append(d)
+        if not convs:
+            ctx.fail("C01e-integer-negation", tdc,
+                     f"-{n.operand.id} (sort key for desc=True)",
+                     "the score array is negated without a preceding "
+                     "conversion of integer scores to a float dtype: "
+                     "unsigned scores and the minimum of a signed dtype "
+                     "wrap around and are ranked wrongly", node=n)
+            continue
+        for d in convs:
+            gs = cfg.guards(d.node)
+            ok = True
+            why = ""
+            for test, pol in gs:
+                txt = ast.unparse(test)
+                cover = (isinstance(test, ast.Call)
+                         and ast.unparse(test.func) == "np.issubdtype"
+                         and len(test.args) == 2
+                         and ast.unparse(test.args[1]) in INT_SUPERSETS
+                         and pol)
+                if not cover:
+                    ok = False
+                    why = (f"the conversion is guarded by '{txt}', which "
+                           "does not cover every integer dtype; scores of "
+                           "the remaining integer dtypes are negated as "
+                           "integers and wrap around")
+            ctx.check(ok, "C01e-integer-negation", tdc,
+                      "integer scores are converted to float before they "
+                      "are negated for the descending sort", why,
+                      node=d.node)
 
 
 def _check_estimator(ctx, tdc, al, fdr_t, tot_t, rnode, case, p_target, skey,
@@ -694,6 +808,71 @@ def _check_update_labels(ctx):
               "method forwards (scores, self.targets, eval_fdr, desc)",
               "the dataset method does not forward its arguments "
               f"unchanged: {show(call, 200)}", node=r2[0][0])
+
+
+def _check_direction_routing(ctx):
+    """Wherever a caller holds a score direction (its own ``desc`` formal or
+    a loop over the two directions) every repository callee that accepts a
+    direction must receive exactly that value."""
+    prog = ctx.prog
+    n_sites = 0
+    for q in sorted(prog.funcs):
+        f = prog.funcs[q]
+        if isinstance(f.node, ast.Lambda):
+            continue
+        holders = set()
+        if "desc" in f.params:
+            holders.add("desc")
+        loop_vars = {}
+        for n in ast.walk(f.node):
+            if isinstance(n, ast.For) and isinstance(n.target, ast.Name) \
+                    and isinstance(n.iter, (ast.Tuple, ast.List)) and \
+                    sorted(ast.unparse(e) for e in n.iter.elts) == [
+                        "False", "True"]:
+                loop_vars[n.target.id] = n
+        if not holders and not loop_vars:
+            continue
+        du = None
+        for call, kind, tg in prog.call_sites(f):
+            if kind not in ("internal", "cha"):
+                continue
+            callees = [prog.funcs[t] for t in tg if t in prog.funcs
+                       and "desc" in prog.funcs[t].params]
+            if not callees:
+                continue
+            # which holder governs this call site?
+            holder = None
+            for lv, loop in loop_vars.items():
+                if any(x is call for x in ast.walk(loop)):
+                    holder = lv
+            if holder is None and holders:
+                holder = "desc"
+            if holder is None:
+                continue
+            n_sites += 1
+            if du is None:
+                du = DefUse(prog, f)
+            for callee in callees[:1]:
+                b = prog.bind(callee, call)
+                actual = b.get("desc")
+                ok = False
+                why = "no direction is passed (the callee's default is used)"
+                if actual is not None:
+                    roots = du.backward_roots(actual)
+                    if isinstance(actual, ast.Name) and actual.id == holder:
+                        ok = True
+                    elif isinstance(actual, ast.Constant):
+                        # explicit constant: the caller pins the direction
+                        ok = holder not in loop_vars and False
+                        why = (f"constant {ast.unparse(actual)} passed "
+                               "instead of the caller's direction")
+                    else:
+                        why = (f"{ast.unparse(actual)} passed instead of "
+                               f"the caller's direction '{holder}'")
+                ctx.check(ok, "C01d-direction-routing", f,
+                          f"{ast.unparse(call.func)}(...) receives the "
+                          f"caller's direction '{holder}'", why, node=call)
+    ctx.floor("C01d-direction-routing", n_sites, 8)
 
 
 def _check_registry(ctx):
